@@ -674,3 +674,5 @@ PROPS["C19"].assumptions = PROPS["C19"].assumptions + ["V-run: the file system, 
 _add_v("C15", "binop", "expr")      # `+` on strings is byte concatenation; s[i] is defined exactly for 0 <= i < len (bytes)
 _add_v("C09", "expr", "render")     # the position handed to an interpolated literal is (line, column) of the literal; nested positions are rendered in full
 PROPS["C10"]._k = PROPS["C10"]._k + [u for u in props_lexer.C03_UNITS if u.harness.startswith("c03_") and "symbol" in u.harness and u not in PROPS["C10"]._k]   # `===` / `!==` are their own tokens
+_add_v("C18", "ctl")                                  # a `for` over a non-iterable is reported at the iterator expression
+_add_v("C14", "range_assign", "pairs", "range_read")  # a method written by range assignment / taken from a slice / handed out by `for` keeps its provenance
